@@ -46,6 +46,7 @@ func main() {
 	nC := run.N(2, 10)
 	run.ParallelRange(0, nS, 3, serverBatch)
 	run.ParallelRange(1000, nC, 2, clientBatch)
+	run.ParallelRange(2000, run.N(4, 16), 4, clientCancelCase)
 	run.Finish(2000)
 }
 
@@ -1013,4 +1014,42 @@ keepTunnelOpen = true
 	run.Count("frpc_recovered_after_malicious_server", 1)
 	judgeRaces(c, "frpc", child)
 	run.Sample(map[string]any{"batch": "frpc", "messages": lg.n.Load(), "logins": fs.Logins.Load(), "sample_messages": firstN(lg.tail(), 5)})
+}
+
+// ---------------------------------------------------------------------------------------------
+// frpc stopped in the instant after a successful login (operator's SIGTERM racing with the login path)
+
+func clientCancelCase(c *h.Case) {
+	port := h.PortsSub(prop, 3, 4).Get()
+	logged := make(chan struct{}, 4)
+	fs, err := h.StartFakeServer(h.FakeServerOpts{Port: port, Token: token, TCPMux: true,
+		OnSession: func(s *h.FakeSession) { logged <- struct{}{} }})
+	if err != nil {
+		run.Inconclusive("fake server did not start")
+		return
+	}
+	defer fs.Close()
+	cfg := fmt.Sprintf("serverAddr = \"127.0.0.1\"\nserverPort = %d\nauth.token = \"%s\"\nloginFailExit = false\ntransport.tls.enable = false\n[[proxies]]\nname = \"p\"\ntype = \"stcp\"\nsecretKey = \"k\"\nlocalIP = \"127.0.0.1\"\nlocalPort = 9\n", port, token)
+	// widen the window between "login done" and "controller keeper started" with a delay at the hook point
+	delay := []int{0, 100, 300, 600}[c.Idx%4]
+	child, err := h.StartChild(prop, "frpc", cfg, fmt.Sprintf("VNODE_DELAY_AT=client.keepControllerWorking.enter:%d", delay))
+	if err != nil {
+		run.Inconclusive("child frpc did not start")
+		return
+	}
+	defer child.Kill()
+	select {
+	case <-logged:
+	case <-time.After(30 * time.Second):
+		run.Inconclusive("frpc did not log in")
+		return
+	}
+	time.Sleep(time.Duration(c.Rng.Intn(40)) * time.Millisecond)
+	child.Term(20 * time.Second) // SIGTERM = the operator stops the client
+	run.Count("frpc_stopped_right_after_login", 1)
+	if line, frame, ok := child.Crash(); ok {
+		c.Data["stderr_tail"] = tailStr(child.Stderr(), 6000)
+		c.Violation("frpc-crash:"+frame, "frpc stopped right after a successful login (delay %d ms at keepControllerWorking) terminated abnormally: %s", delay, line)
+	}
+	run.Distinct(fmt.Sprintf("cancel-after-login|%d|%d", delay, c.Idx))
 }
